@@ -1,6 +1,9 @@
 //! Mutex-based sink for thread-safe aggregation
 
+#[cfg(not(metrique_verif))]
 use std::sync::{Arc, Mutex};
+#[cfg(metrique_verif)]
+use detsim::sync::{Arc, Mutex};
 
 use metrique_core::CloseValue;
 
